@@ -323,8 +323,5 @@ func (e *rtEnv) scrape() (string, error) {
 func (e *rtEnv) dump() string {
 	st := e.dumpStore()
 	s := strings.Join(st, " ")
-	if s == "" {
-		s = "."
-	}
 	return fmt.Sprintf("H[%s] C[%s] S[%s]", e.dumpHandles(), e.dumpCounters(), s)
 }
